@@ -787,8 +787,8 @@ def gen_sequence(rng, i):
 
 def generate(tier, rng):
     big = tier == 'thorough'
-    n = 2000 if big else 260
-    njobs = 40 if big else 12         # calls through joblib worker processes are slow to start:
+    n = 1000 if big else 260
+    njobs = 30 if big else 12         # calls through joblib worker processes are slow to start:
     nm1 = 4 if big else 2
     cases = []
     for i in range(njobs + nm1):
@@ -805,15 +805,15 @@ def generate(tier, rng):
     cases += [gen_case(rng, big) for _ in range(n - len(cases))]
     for c in cases:
         yield c
-    for i in range(400 if big else 54):
+    for i in range(270 if big else 54):
         c = gen_boundary(rng, i)
         c['stream'] = 'boundary%d' % (i % 9)
         yield c
-    for i in range(500 if big else 60):
+    for i in range(300 if big else 60):
         c = vary_forms(rng, gen_case(rng, False, max_tiles=rng.choice([60, 100, 150]), nloci=rng.choice([5, 8, 12, 20, 30])), i)
         c['stream'] = 'forms'
         yield c
-    seqs = [gen_sequence(rng, i) for i in range(250 if big else 36)]
+    seqs = [gen_sequence(rng, i) for i in range(150 if big else 36)]
     seqs.sort(key=lambda s: 0 if 'n_jobs' not in s['what'] else 1)     # worker-pool sequences last
     for s in seqs:
         yield s
